@@ -326,6 +326,12 @@ Definition fit (trim : bool) (n : nat) (vs : list xv) : option (list xv) :=
 Fixpoint set_last {A} (a : A) (l : list A) : list A :=
   match l with [] => [] | [_] => [a] | x :: t => x :: set_last a t end.
 
+Fixpoint zip_opt {A B C} (f : A -> B -> option C) (ts : list A) (vs : list B) : list (option C) :=
+  match ts, vs with
+  | t :: ts', v :: vs' => f t v :: zip_opt f ts' vs'
+  | _, _ => []
+  end.
+
 (* one value of declared type t.  [depth] bounds record nesting. *)
 Fixpoint unpack_f (c : cfg) (depth : nat) (reg : registry) (t : ftype) (x : xv) {struct depth} : option fval :=
   match depth with
@@ -383,11 +389,7 @@ Fixpoint unpack_f (c : cfg) (depth : nat) (reg : registry) (t : ftype) (x : xv) 
                        match fit true (List.length (field_types d)) vals with
                        | None => None
                        | Some vals' =>
-                         match all_some ((fix go (ts : list ftype) (vs : list xv) : list (option fval) :=
-                                            match ts, vs with
-                                            | t :: ts', v :: vs' => unpack_f c dp reg t v :: go ts' vs'
-                                            | _, _ => []
-                                            end) (field_types d) vals') with
+                         match all_some (zip_opt (unpack_f c dp reg) (field_types d) vals') with
                          | Some r => Some (FRec (Rec d (set_last (FInt (VERSION c)) r)))
                          | None => None
                          end
@@ -397,7 +399,7 @@ Fixpoint unpack_f (c : cfg) (depth : nat) (reg : registry) (t : ftype) (x : xv) 
           end
       | TList et => match x with
                     | XArr l =>
-                        match all_some ((fix go (l : list xv) := match l with [] => [] | a :: tl => unpack_f c dp reg et a :: go tl end) l) with
+                        match all_some (map (unpack_f c dp reg et) l) with
                         | Some r => Some (FList r) | None => None end
                     | _ => None end
       | TStringlist | TDictlist => match x with
@@ -425,11 +427,7 @@ Definition unpack_member (c : cfg) (depth : nat) (reg : registry) (x : xv) : opt
           match fit false (List.length (field_types d)) vals with
           | None => None
           | Some vals' =>
-              match all_some ((fix go (ts : list ftype) (vs : list xv) : list (option fval) :=
-                                 match ts, vs with
-                                 | t :: ts', v :: vs' => unpack_f c depth reg t v :: go ts' vs'
-                                 | _, _ => []
-                                 end) (field_types d) vals') with
+              match all_some (zip_opt (unpack_f c depth reg) (field_types d) vals') with
               | Some r => Some (Rec d (set_last (FInt (VERSION c)) r))
               | None => None
               end
